@@ -16,9 +16,13 @@ META = {
             "C05 invariant yields the same best block, the invariant and an available state root; for the connection of a main-chain block, "
             "for EVERY prefix of its write units (state bulk, receipts tx, tip tx) the restarted node satisfies the invariant on the old or "
             "the new tip (crash_recover_inv / crash_best_legit / state_available for main-chain connection and hence orphan-resolution runs "
-            "on the main chain).  Reorganisation crash points are NOT proved in Coq (partial): they are exercised on the real code for every "
-            "journal prefix of every scenario on every run (real Init+Recover, invariant, legitimacy of best, marker gone, replay convergence), "
-            "and the real code's sequence of write units is compared unit by unit with the model's journal (units_of).",
+            "on the main chain); the same for main-chain orphan-resolution runs, for side-branch stores, and for EVERY prefix of the write units of "
+            "a reorganisation of any depth (rollforward state commits/receipts, marker write, deleteOldReceipts, swapTxMapping, swapChainMapping "
+            "bulk, marker delete): before the marker the node restarts on the old tip, after it the marker-driven recovery (RecoverChainMapping + "
+            "recoverReorg) ends on the new tip holding exactly the crash-free final store; crash_replay_converges proved for main-chain connection, "
+            "refuted (known finding) for reorg crashes before the marker.  Bulks/transactions are atomic units (no partial flush).  On every run the "
+            "real code is exercised for every journal prefix of every scenario (real Init+Recover, invariant, legitimacy of best, marker gone, replay "
+            "convergence against a crash-free node fed the blocks twice), and its sequence of write units is compared with the model's journal.",
     "note": "Trusted: Coq kernel; journaling store (harness/engines/chaindb/zz_verif_journal_test.go) as the model of db.DB atomicity "
             "(committed transaction / flushed bulk / single set are atomic); badger durability below db.DB; consensus stub (LIB 0 at restart, "
             "as the lazily loaded DPoS status).  Known finding: a crash during a reorganisation before the marker is written restarts on the "
